@@ -71,11 +71,36 @@ func buildFile(id int, ckpt bool, ss []stmt, style int) mfile {
 		}
 		text := b.String()
 		f.stmts = append(f.stmts, pst{pos: len(text), line: strings.Count(text, "\n") + 1, s: s})
-		b.WriteString(s.sql())
+		b.WriteString(layout(s.sql(), style, k))
 		b.WriteString(";\n")
 	}
 	f.text = b.String()
 	return f
+}
+
+// layout varies the white space and the letter case of a statement's keywords without changing its meaning:
+// SQL is free-form, so `DROP\n  TABLE t`, `DROP\tTABLE t` and `drop table t` are the statement `DROP TABLE t`.
+func layout(sql string, style, k int) string {
+	if style&16 == 0 {
+		return sql
+	}
+	i := strings.IndexByte(sql, ' ')
+	if i < 0 {
+		return sql
+	}
+	switch (style>>5 + k) % 4 {
+	case 0:
+		return sql[:i] + "\n  " + sql[i+1:]
+	case 1:
+		return sql[:i] + "\t" + sql[i+1:]
+	case 2:
+		j := strings.IndexByte(sql[i+1:], ' ')
+		if j < 0 {
+			return strings.ToLower(sql[:i]) + sql[i:]
+		}
+		return strings.ToLower(sql[:i+1+j]) + sql[i+1+j:]
+	}
+	return sql[:i] + "  " + sql[i+1:]
 }
 
 func (c *tcase) line() string {
